@@ -9,12 +9,13 @@ COQ_PRELUDE = ''
 PER_FILE = 300
 CASE_TIMEOUT = 20
 RULE = ('kinds: loop = loop(list,tuple,dict)(f) on random nestings of lists / tuples / dict, OrderedDict, Dict, dictattr to depth 4 (empty containers included; dict keys are strings, ints, floats, tuples, None, '
-        'and in the lifted argument also mixes of those families) '
+        'and in the lifted argument also mixes of those families; leaves are ints, None, strings of length 0-4, floats, +-inf; a few containers of 100-160 elements; also loop(list), loop(tuple), loop(dict), '
+        'loop(list,tuple), ... where containers of the other types are leaves) '
         'with 0-3 companions that are scalars, same-shape, same-shape-at-the-top, different-shape or "deep" (a sub-container of the matching length / keys), passed '
         'positionally, by keyword or mixed (also the lifted argument itself by keyword), f recording exactly what it receives (lambda a,*args,**kw) or binding named '
         'parameters (lambda a,b=None,c=None); lib = lower upper strip proper capitalize replace split f12 as_float on nested structures of strings / numbers / None; '
-        'zip = zipper over scalars and sequences of lengths 0-4; as = as_list / as_tuple applied once and twice; wait = waiter on a nested structure holding up to 5 '
-        '(thorough: 6) futures / coroutines / tasks under a real asyncio event loop, the futures resolved by a driver in EVERY permutation, recording the final value and '
+        'zip = zipper over scalars (strings included), lists, tuples, ranges and zip objects of lengths 0-4 (a few of 100-140), plus lens on the same values; as = as_list / as_tuple (none=True included, ranges) applied once and twice; wait = waiter on a nested structure holding up to 5 '
+        '(thorough: 6) futures / coroutines / tasks under a real asyncio event loop, the futures resolved by a driver in EVERY permutation, (also all results set within one loop iteration, and one future / task placed twice; every quick run has one structure with 6 awaitables = 720 orders), recording the final value and '
         'whether waiter had returned before each completion. Each observation is compared in Coq with M_loop (wrapped / zipper / as_list / as_tuple / collect). The oracle '
         're-derives the expected result from the property text: a plain recursive map where a companion of the same length (dicts: same keys) is indexed, anything else '
         'is passed whole (no exemption: a different-shape companion holding a sub-container of the matching length / keys is searched recursively by _item_by_i / _item_by_key instead of being broadcast - '
@@ -43,6 +44,10 @@ TECHNIQUE = 'Coq proof (structural induction on nested values, induction over th
 def coq_val(s):
     if isinstance(s, int):
         return '(VLeaf (%d)%%Z)' % s
+    if 'R' in s:            # range(n): iterated like the list [0, .., n-1]
+        return '(VList [%s])' % '; '.join('(VLeaf (%d)%%Z)' % i for i in range(s['R']))
+    if 'Z' in s:            # zip(a, b): iterated like the list of pairs
+        return '(VList [%s])' % '; '.join('(VTuple [%s; %s])' % (coq_val(a), coq_val(b)) for a, b in zip(*s['Z']))
     if 'L' in s:
         return '(VList [%s])' % '; '.join(coq_val(x) for x in s['L'])
     if 'T' in s:
@@ -69,14 +74,14 @@ def coq_runner(case):
 def coq_case(case):
     k = case['kind']
     if k == 'loop':
-        return '(%s, [%s], [%s])' % (coq_val(case['arg']), '; '.join(coq_val(x) for x in case['pos']),
+        return '(%s, [%s], [%s])' % (coq_val(collapse(case['arg'], case.get('types', 'LTD'), [])), '; '.join(coq_val(x) for x in case['pos']),
                                      '; '.join('((%d)%%Z, %s)' % (n, coq_val(v)) for n, v in case['kw']))
     if k == 'lib':
         return coq_val(case['arg'])
     if k == 'zip':
         return '[%s]' % '; '.join(coq_val(x) for x in case['vals'])
     if k == 'as':
-        return '(%s, %s)' % ('true' if case['tuple'] else 'false', coq_val(case['v']))
+        return '(%s, %s, %s)' % ('true' if case['tuple'] else 'false', 'true' if case.get('none') else 'false', coq_val(case['v']))
     if k == 'wait':
         m = len(case['results'])
         scheds = '; '.join('[%s]' % '; '.join('%d%%nat' % i for i in p) for p in itertools.permutations(range(m)))
@@ -85,15 +90,18 @@ def coq_case(case):
 
 # ---------------------------------------------------------------- implementation side
 def impl_setup():
-    global loop, zipper, as_list, as_tuple, waiter, Dict, dictattr, OrderedDict, asyncio, LIB, CLS, F_RECORD, F_NAMED
+    global loop, zipper, lens, as_list, as_tuple, waiter, Dict, dictattr, OrderedDict, asyncio, LIB, CLS, F_RECORD, F_NAMED
     import asyncio
     from collections import OrderedDict
-    from pyg_base import loop, zipper, as_list, as_tuple, waiter, Dict, dictattr
+    from pyg_base import loop, zipper, lens, as_list, as_tuple, waiter, Dict, dictattr
     from pyg_base import lower, upper, strip, proper, capitalize, replace, split, f12, as_float
     LIB = dict(lower=lower, upper=upper, strip=strip, proper=proper, capitalize=capitalize, replace=replace, split=split, f12=f12, as_float=as_float)
     CLS = [dict, OrderedDict, Dict, dictattr]
-    F_RECORD = loop(list, tuple, dict)(lambda a, *args, **kw: (a, args, kw))
-    F_NAMED = loop(list, tuple, dict)(lambda a, b=None, c=None: (a, b, c))
+    F_RECORD = {}; F_NAMED = {}
+    for tys in ('LTD', 'L', 'T', 'D', 'LT', 'LD', 'TD'):
+        tt = tuple({'L': list, 'T': tuple, 'D': dict}[c] for c in tys)
+        F_RECORD[tys] = loop(*tt)(lambda a, *args, **kw: (a, args, kw))
+        F_NAMED[tys] = loop(*tt)(lambda a, b=None, c=None: (a, b, c))
 
 # dict keys: id 0-9 -> 'k0'..'k9'; 10-19 -> the int; 20-29 -> id+0.5 (float); 30-39 -> a tuple (id,) / (id, 'x'); 40 -> None.
 # The model only compares key SETS (sorted lists of ids), so the id order need not be Python's order.
@@ -112,9 +120,21 @@ def keyid(key):
 def key_class(k):
     return 'str' if k < 10 else 'num' if k < 30 else 'tuple' if k < 40 else 'none'
 
-def build(s, leaf=lambda k: None if k == -1 else k):
+# leaf ids: k >= 0 the int k; -1 None; -2 .. -10 strings (lengths 0-4, so that a string companion can have the lifted list's length),
+# floats, +-inf; ids >= COLLAPSED stand for a whole container the lifter must treat as a leaf (loop(list) meeting a tuple, ...)
+SPECIAL = {-2: 'ab', -3: 'abc', -4: '', -5: 1.5, -6: float('inf'), -7: 'xy', -8: -0.5, -9: 'abcd', -10: float('-inf')}
+SPECIAL_INV = {v: k for k, v in SPECIAL.items()}
+COLLAPSED = 100000
+def plain_leaf(k):
+    return None if k == -1 else SPECIAL[k] if k < -1 else k
+
+def build(s, leaf=plain_leaf):
     if isinstance(s, int):
         return leaf(s)
+    if 'R' in s:
+        return range(s['R'])
+    if 'Z' in s:
+        return zip(*[[build(x, leaf) for x in side] for side in s['Z']])
     if 'L' in s:
         return [build(x, leaf) for x in s['L']]
     if 'T' in s:
@@ -122,35 +142,50 @@ def build(s, leaf=lambda k: None if k == -1 else k):
     cls, items = s['D']
     return CLS[cls]({pykey(k): build(v, leaf) for k, v in items})
 
-def render(x):
+def render(x, ident=None):
     """python value -> the nested-list observation X_loop.J_of produces"""
+    if ident is not None and id(x) in ident:
+        return ident[id(x)]
     if x is None:
         return -1
     if isinstance(x, bool):
         raise TypeError('bool leaf')
     if isinstance(x, int):
         return x
+    if isinstance(x, (str, float)):
+        return SPECIAL_INV[x]
     if type(x) is list:
-        return ['L'] + [render(v) for v in x]
+        return ['L'] + [render(v, ident) for v in x]
     if type(x) is tuple:
-        return ['T'] + [render(v) for v in x]
+        return ['T'] + [render(v, ident) for v in x]
     if type(x) in CLS:
-        return ['D', CLS.index(type(x))] + [[keyid(k), render(v)] for k, v in x.items()]
+        return ['D', CLS.index(type(x))] + [[keyid(k), render(v, ident)] for k, v in x.items()]
     raise TypeError('cannot render %r' % type(x))
 
-def lift(g, arg, pos, kw):
+def collapse(s, tys, table):
+    """the argument as the lifter sees it: containers of a type that is not lifted are leaves (ids >= COLLAPSED, originals in table)"""
+    if isinstance(s, int):
+        return s
+    tag = 'L' if 'L' in s else 'T' if 'T' in s else 'D'
+    if tag not in tys:
+        table.append(s); return COLLAPSED + len(table) - 1
+    if tag == 'D':
+        return {'D': [s['D'][0], [[k, collapse(v, tys, table)] for k, v in s['D'][1]]]}
+    return {tag: [collapse(x, tys, table) for x in s[tag]]}
+
+def lift(g, arg, pos, kw, tys='LTD'):
     """the property text, literally: same container type and shape, leaves g(leaf, companions); a companion of the same
     length (dicts: same keys) is matched element by element / by key, EVERYTHING else is broadcast (passed whole)"""
-    if isinstance(arg, (list, tuple)):
+    if (type(arg) is list and 'L' in tys) or (type(arg) is tuple and 'T' in tys):
         n = len(arg)
         def pick(c, i):
             return c[i] if isinstance(c, (list, tuple)) and len(c) == n else c
-        return type(arg)([lift(g, arg[i], [pick(c, i) for c in pos], {k: pick(c, i) for k, c in kw.items()}) for i in range(n)])
-    if isinstance(arg, dict):
+        return type(arg)([lift(g, arg[i], [pick(c, i) for c in pos], {k: pick(c, i) for k, c in kw.items()}, tys) for i in range(n)])
+    if isinstance(arg, dict) and 'D' in tys:
         keys = set(arg.keys())
         def pickk(c, key):
             return dict.__getitem__(c, key) if isinstance(c, dict) and set(c.keys()) == keys else c
-        return type(arg)({key: lift(g, dict.__getitem__(arg, key), [pickk(c, key) for c in pos], {k: pickk(c, key) for k, c in kw.items()}) for key in arg.keys()})
+        return type(arg)({key: lift(g, dict.__getitem__(arg, key), [pickk(c, key) for c in pos], {k: pickk(c, key) for k, c in kw.items()}, tys) for key in arg.keys()})
     return g(arg, *pos, **kw)
 
 def same(a, b):
@@ -169,11 +204,14 @@ def err(e):
     return n if n in ('ValueError', 'KeyError', 'TypeError', 'IndexError', 'AttributeError') else 'Other:' + n
 
 def impl_loop(case):
-    arg = build(case['arg']); pos = [build(x) for x in case['pos']]
+    tys = case.get('types', 'LTD')
+    table = []; carg = collapse(case['arg'], tys, table)
+    objs = [build(t) for t in table]; ident = {id(o): COLLAPSED + i for i, o in enumerate(objs)}
+    arg = build(carg, lambda k: objs[k - COLLAPSED] if k >= COLLAPSED else plain_leaf(k)); pos = [build(x) for x in case['pos']]
     named = case.get('mode') == 'named'
     names = (lambda n: 'bc'[n]) if named else (lambda n: 'p%d' % n)
     kw = {names(n): build(v) for n, v in case['kw']}
-    F = F_NAMED if named else F_RECORD
+    F = (F_NAMED if named else F_RECORD)[tys]
     try:
         if case.get('first_kw') and not pos:
             res = F(a=arg, **kw)
@@ -182,14 +220,14 @@ def impl_loop(case):
     except Exception as e:
         return {'status': err(e), 'obs': ['ERR', err(e)], 'viol': 'loop(list,tuple,dict)(f)(arg, *companions) raised %s: %s' % (type(e).__name__, str(e)[:150])}
     try:
-        obs = render(res)
+        obs = render(res, ident)
     except Exception as e:
         return {'status': 'ok', 'obs': ['ERR', 'unrenderable'], 'viol': 'result is not a nesting of the argument\'s container types: %r' % (res,)}
     viol = None
     if named:
-        exp = lift(lambda a, b=None, c=None: (a, b, c), arg, pos, kw)
+        exp = lift(lambda a, b=None, c=None: (a, b, c), arg, pos, kw, tys)
     else:
-        exp = lift(lambda a, *args, **k: (a, args, k), arg, pos, kw)
+        exp = lift(lambda a, *args, **k: (a, args, k), arg, pos, kw, tys)
     if not same(res, exp):
         viol = 'loop(...)(f)(%r, *%r, **%r) = %r but leaf-wise mapping with matched / broadcast companions gives %r' % (arg, pos, kw, res, exp)
     if viol is None and named and pos:
@@ -237,13 +275,16 @@ def impl_lib(case):
         viol = '%s(%r, **%r) = %r but applying it leaf by leaf gives %r' % (case['fn'], arg, kw, res, exp)
     return {'status': 'ok', 'obs': obs, 'viol': viol}
 
+def _listy(v):
+    return list(v) if isinstance(v, (range, zip)) else v
+
 def impl_zip(case):
-    vals = [build(x) for x in case['vals']]
+    vals = [_listy(build(x)) for x in case['vals']]        # what each argument iterates as
     seq = [isinstance(v, (list, tuple)) for v in vals]
     lens_ = [len(v) if s else 1 for v, s in zip(vals, seq)]
     non1 = sorted(set(l for l in lens_ if l != 1))
     try:
-        rows = list(zipper(*vals)); status = 'ok'
+        rows = list(zipper(*[build(x) for x in case['vals']])); status = 'ok'
         obs = [[render(x) for x in r] for r in rows]
     except Exception as e:
         status = err(e); obs = ['ERR', status]; rows = None
@@ -258,20 +299,38 @@ def impl_zip(case):
         exp = [tuple((v[0] if len(v) == 1 else v[j]) if s else v for v, s in zip(vals, seq)) for j in range(n)]
         if not same(rows, exp):
             viol = 'zipper(*%r) = %r, expected %r' % (vals, rows, exp)
-    return {'status': status, 'obs': obs, 'viol': viol}
+    # lens(*values) on the raw values (ranges kept, zips as lists): the common length, ValueError on two lengths other than 1
+    try:
+        ln = lens(*[build(x) if not (isinstance(x, dict) and 'Z' in x) else list(build(x)) for x in case['vals']]); lobs = ln
+    except Exception as e:
+        ln = err(e); lobs = ['ERR', ln]
+    if viol is None and all(seq) and vals:
+        want = 'ValueError' if len(non1) > 1 else (non1[0] if non1 else 1)
+        if ln != want:
+            viol = 'lens(*%r) = %r, the common length is %r' % (vals, ln, want)
+    return {'status': status, 'obs': [obs, lobs], 'viol': viol}
 
 def impl_as(case):
-    v = build(case['v']); f = as_tuple if case['tuple'] else as_list
-    r1 = f(v); r2 = f(r1)
+    v = build(case['v']); f = as_tuple if case['tuple'] else as_list; tp = tuple if case['tuple'] else list
+    kw = {'none': True} if case.get('none') else {}
+    r1 = f(v, **kw); r2 = f(r1, **kw)
     viol = None
-    if type(r1) is not (tuple if case['tuple'] else list):
-        viol = '%s(%r) = %r is not a %s' % (f.__name__, v, r1, 'tuple' if case['tuple'] else 'list')
+    if type(r1) is not tp:
+        viol = '%s(%r) = %r is not a %s' % (f.__name__, v, r1, tp.__name__)
     elif not same(r1, r2):
         viol = '%s is not idempotent: %s(%r) = %r but applying it again gives %r' % (f.__name__, f.__name__, v, r1, r2)
+    else:       # normaliser (docstring): None -> empty (or [None] with none=True), a list / tuple / range keeps its elements, anything else is wrapped
+        if v is None: want = tp([None]) if case.get('none') else tp()
+        elif isinstance(v, tuple) and len(v) == 1 and isinstance(v[0], list): want = tp(v[0])      # the *args convenience
+        elif isinstance(v, (list, tuple, range)): want = tp(v)
+        else: want = tp([v])
+        if not same(r1, want):
+            viol = '%s(%r) = %r, expected %r' % (f.__name__, v, r1, want)
     return {'status': 'ok', 'obs': [render(r1), render(r2)], 'viol': viol}
 
 def impl_wait(case):
     m = len(case['results']); results = [build(x) for x in case['results']]; kinds = case['kinds']
+    cache = {}
     exp_struct = subst_py(case['w'], results)
     out = []; viol = None
     async def one(order):
@@ -279,15 +338,18 @@ def impl_wait(case):
         futs = [loop_.create_future() for _ in range(m)]
         async def co(f):
             return await f
+        made = {}
         def aw(i):
-            if kinds[i] == 'fut': return futs[i]
             if kinds[i] == 'coro': return co(futs[i])
-            return asyncio.ensure_future(co(futs[i]))
+            if i not in made:          # a future / task may sit at several places of the structure
+                made[i] = futs[i] if kinds[i] == 'fut' else asyncio.ensure_future(co(futs[i]))
+            return made[i]
         struct = build_w(case['w'], aw)
         task = asyncio.ensure_future(waiter(struct))
         flags = []
         for i in order:
-            for _ in range(4): await asyncio.sleep(0)
+            if not case.get('burst'):      # burst: all results are set within one iteration of the event loop
+                for _ in range(4): await asyncio.sleep(0)
             flags.append(task.done())
             futs[i].set_result(results[i])
         res = await asyncio.wait_for(task, 5)
@@ -349,19 +411,23 @@ def nontrivial(case, result):
 def shape(case):
     k = case['kind']
     if k == 'loop':
-        return 'loop:%s:d%d:pos%d:kw%d:%s' % (case.get('mode', 'record'), depth(case['arg']), len(case['pos']), len(case['kw']), case.get('tag', ''))
+        return 'loop:%s:%s:d%d:pos%d:kw%d:%s' % (case.get('mode', 'record'), case.get('types', 'LTD'), min(depth(case['arg']), 4), len(case['pos']), len(case['kw']), case.get('tag', ''))
     if k == 'lib':
         return 'lib:%s:d%d' % (case['fn'], depth(case['arg']))
     if k == 'zip':
-        return 'zip:%d' % len(case['vals'])
+        kinds = ''.join(sorted({'s' if isinstance(v, int) else 'R' if 'R' in v else 'Z' if 'Z' in v else 'q' for v in case['vals']}))
+        big = any(not isinstance(v, int) and len(v.get('L', v.get('T', []))) > 100 for v in case['vals'])
+        return 'zip:%d:%s%s' % (len(case['vals']), kinds, ':>100' if big else '')
     if k == 'as':
-        return 'as_tuple' if case['tuple'] else 'as_list'
-    return 'wait:%d' % len(case['results'])
+        return ('as_tuple' if case['tuple'] else 'as_list') + (':none' if case.get('none') else '') + (':range' if isinstance(case['v'], dict) and 'R' in case['v'] else '')
+    return 'wait:%d%s' % (len(case['results']), ':burst' if case.get('burst') else '')
 
 # ---------------------------------------------------------------- generation
 class Ctr:
-    def __init__(self, start=0): self.n = start
+    def __init__(self, start=0, rng=None, p_special=0.0): self.n = start; self.rng = rng; self.p = p_special
     def next(self):
+        if self.rng is not None and self.rng.random() < self.p:
+            return self.rng.choice([-1, -2, -3, -4, -5, -6, -7, -8, -9, -10])      # None, strings of length 0-4, floats, +-inf
         self.n += 1; return self.n - 1
 
 def rand_keys(rng, w, mixed):
@@ -429,11 +495,19 @@ def companion(rng, arg, ctr):
     return {'L': inner}, 'deep'
 
 def gen_loop(rng):
-    ctr = Ctr(0)
-    arg = rand_struct(rng, rng.choice([1, 2, 2, 3, 3, 4]), ctr, p_leaf=0.15, mixed=True)
+    sp = rng.choice([0.0, 0.0, 0.15, 0.4])
+    ctr = Ctr(0, rng, sp)
+    wide = rng.random() < 0.015
+    if wide:      # containers of more than 100 elements
+        n = rng.randrange(101, 160)
+        arg = {rng.choice('LT'): [ctr.next() for _ in range(n)]}
+        if rng.random() < 0.5:
+            arg = {'L': [arg, ctr.next()]}
+    else:
+        arg = rand_struct(rng, rng.choice([1, 2, 2, 3, 3, 4]), ctr, p_leaf=0.15, mixed=True)
     named = rng.random() < 0.4
     ncomp = rng.choice([0, 1, 1, 2, 2, 3]) if not named else rng.choice([1, 1, 2, 2])
-    comps = [companion(rng, arg, Ctr(100 * (i + 1))) for i in range(ncomp)]
+    comps = [companion(rng, arg, Ctr(100 * (i + 1), rng, sp)) for i in range(ncomp)]
     npos = rng.randrange(0, ncomp + 1)
     tag = '+'.join(sorted(set(t for _, t in comps)))
     if named:
@@ -441,9 +515,18 @@ def gen_loop(rng):
     else:
         kwn = rng.sample(range(6), ncomp - npos)
     case = {'kind': 'loop', 'mode': 'named' if named else 'record', 'arg': arg, 'pos': [c for c, _ in comps[:npos]],
-            'kw': [[n, c] for n, (c, _) in zip(kwn, comps[npos:])], 'tag': tag}
+            'kw': [[n, c] for n, (c, _) in zip(kwn, comps[npos:])], 'tag': tag + (':wide' if wide else '') + (':leafkinds' if sp else '')}
     if npos == 0 and rng.random() < 0.3:
         case['first_kw'] = True
+    if rng.random() < 0.2:      # loop(list), loop(dict), loop(list, tuple) ...: containers of the other types are leaves
+        case['types'] = rng.choice(['L', 'T', 'D', 'LT', 'LD', 'TD'])
+        if 'T' not in case['types']:      # () is one shared object in CPython: the harness could not tell a collapsed () from f's empty *args
+            def fill(x):
+                if isinstance(x, int): return x
+                if 'T' in x: return {'T': [fill(y) for y in x['T']] or [0]}
+                if 'L' in x: return {'L': [fill(y) for y in x['L']]}
+                return {'D': [x['D'][0], [[k, fill(v)] for k, v in x['D'][1]]]}
+            case['arg'] = fill(case['arg'])
     return case
 
 STRS = ['Hello World', ' padded  ', 'MiXed case', 'a,b c', 'abcabc', '', 'x', 'the  quick brown', '1.5k', '100%', '-1,234', '2 mln', 'n/a', '7']
@@ -453,9 +536,10 @@ def gen_lib(rng):
     def leaf():
         r = rng.random()
         if fn == 'f12':
-            v = rng.choice([1.5, 2.25, 0.125, 3, None, 'txt', 1e6, -0.5]) if r < 0.9 else rng.choice(STRS)
+            v = rng.choice([1.5, 2.25, 0.125, 3, None, 'txt', 1e6, -0.5, float('inf'), float('nan'), 1e-9, -0.0]) if r < 0.9 else rng.choice(STRS)
         elif fn == 'as_float':
-            v = rng.choice(['1.5k', '100%', '-1,234', '2 mln', 'n/a', '7', '', '1.25', '3bp', 'abc', 5, None, 2.5])
+            v = rng.choice(['1.5k', '100%', '-1,234', '2 mln', 'n/a', '7', '', '1.25', '3bp', 'abc', 5, None, 2.5, '1e3', 'inf', 'nan', '-', ' 12 ',
+                            '1,2,3', '5 pct', '12bn', '1.2 crore', '3 lakh', 'k', '0.5M', '7 Percent', '1 234 567'])
         else:
             v = rng.choice(STRS) if r < 0.85 else rng.choice([3, None, 2.5])
         leaves.append(v); return len(leaves) - 1
@@ -464,13 +548,13 @@ def gen_lib(rng):
     if fn == 'replace':
         extra = {'old': rng.choice(['a', ' ', 'b', ['a', 'b', 'c', 'l', 'o'], 'll']), 'new': rng.choice([None, '_', 'Z'])}
     if fn == 'split':
-        extra = {'sep': rng.choice([' ', ',', 'b']), 'dedup': rng.choice([True, False])}
+        extra = {'sep': rng.choice([' ', ',', 'b', [' ', ','], [','], [], [' ', 'b', ',']]), 'dedup': rng.choice([True, False])}
     return {'kind': 'lib', 'fn': fn, 'arg': arg, 'leaves': leaves, 'extra': extra}
 
 def gen_zip(rng):
-    ctr = Ctr(0)
+    ctr = Ctr(0, rng, rng.choice([0.0, 0.2]))
     k = rng.choice([0, 1, 2, 2, 3, 3, 4])
-    base = rng.choice([0, 2, 3, 4])
+    base = rng.choice([0, 2, 3, 4]) if rng.random() < 0.95 else rng.randrange(101, 140)      # a few sequences of more than 100 elements
     vals = []
     for _ in range(k):
         r = rng.random()
@@ -478,22 +562,33 @@ def gen_zip(rng):
             vals.append(ctr.next() if rng.random() < 0.8 else -1)
         else:
             n = rng.choice([base, base, base, 1, 1, rng.choice([0, 2, 3, 4])])
-            vals.append({rng.choice('LT'): [ctr.next() if rng.random() < 0.85 else {'L': [ctr.next()]} for _ in range(n)]})
+            r2 = rng.random()
+            if r2 < 0.1:
+                vals.append({'R': n})                                      # a range
+            elif r2 < 0.2:
+                vals.append({'Z': [[ctr.next() for _ in range(n)], [ctr.next() for _ in range(n)]]})      # a zip object
+            else:
+                vals.append({rng.choice('LT'): [ctr.next() if rng.random() < 0.85 else {'L': [ctr.next()]} for _ in range(n)]})
     return {'kind': 'zip', 'vals': vals}
 
 def gen_as(rng, safe):
-    ctr = Ctr(0)
+    ctr = Ctr(0, rng, 0.2)
     r = rng.random()
     if r < 0.15:
         v = -1
     elif r < 0.3:
         v = ctr.next()
+    elif r < 0.37:
+        v = {'R': rng.choice([0, 1, 3])}
     else:
         v = rand_struct(rng, rng.choice([1, 2, 3]), ctr, p_leaf=0.3, widths=(0, 1, 1, 1, 2, 3))
-    return {'kind': 'as', 'tuple': rng.random() < 0.5, 'v': v}
+    case = {'kind': 'as', 'tuple': rng.random() < 0.5, 'v': v}
+    if rng.random() < 0.25:
+        case['none'] = True
+    return case
 
-def gen_wait(rng, maxm):
-    m = rng.choice([0, 1, 2, 3, 3, 4, 4, maxm])
+def gen_wait(rng, maxm, m=None):
+    m = rng.choice([0, 1, 2, 3, 3, 4, 4, maxm]) if m is None else m
     ids = list(range(m)); rng.shuffle(ids)
     ctr = Ctr(0)
     def leaf():
@@ -505,7 +600,14 @@ def gen_wait(rng, maxm):
         w = {'L': [w] + [{'A': i} for i in ids]}
     rc = Ctr(100)
     results = [rc.next() if rng.random() < 0.7 else rand_struct(rng, 2, rc, p_leaf=0.4) for _ in range(m)]
-    return {'kind': 'wait', 'w': w, 'results': results, 'kinds': [rng.choice(['fut', 'fut', 'coro', 'task']) for _ in range(m)]}
+    kinds = [rng.choice(['fut', 'fut', 'coro', 'task']) for _ in range(m)]
+    again = [i for i in range(m) if kinds[i] != 'coro']
+    if again and rng.random() < 0.3:      # the same future / task at two places of the structure
+        w = {'T': [w, {'A': rng.choice(again)}]}
+    case = {'kind': 'wait', 'w': w, 'results': results, 'kinds': kinds}
+    if rng.random() < 0.25:
+        case['burst'] = True
+    return case
 
 def gen_cases(rng, tier):
     q = tier == 'quick'
@@ -515,12 +617,13 @@ def gen_cases(rng, tier):
     cases += [gen_zip(rng) for _ in range(500 if q else 6000)]
     cases += [gen_as(rng, True) for _ in range(300 if q else 3000)]
     cases += [gen_wait(rng, 5 if q else 6) for _ in range(80 if q else 500)]
+    cases += [gen_wait(rng, 6, m=6)]                     # the quantifier's upper bound: 6 awaitables, all 720 completion orders
     return cases
 
 def shrink(case):
     k = case['kind']
     def subs(s):
-        if isinstance(s, int) or 'A' in s:
+        if isinstance(s, int) or 'A' in s or 'R' in s or 'Z' in s:
             return
         tag = 'L' if 'L' in s else 'T' if 'T' in s else 'D'
         xs = s[tag] if tag != 'D' else s['D'][1]
